@@ -97,7 +97,9 @@ def wider_more_lines_cheaper_break_kind(fail):
     """F26: clause 2 of C11 is false for a penalty-based wrapper: a cheaper kind of break (e.g. inside
     the parameter list, 3 per break) can become feasible only at the wider limit and is then preferred
     to a more expensive single break (before the return type, 2^8) although it needs more lines"""
-    return fail.get("kind") == "wider_more_lines" and fail.get("narrow_overflows") is False
+    # class condition: the narrower result pays for one of the expensive break kinds (2^8 before a routine's result
+    # type, 2^9 before a routine directive, 2^10 inside angle brackets) that the wider result avoids by more cheap breaks
+    return fail.get("kind") == "wider_more_lines" and fail.get("narrow_overflows") is False and fail.get("narrow_expensive_break") is True
 
 
 def overflow_by_closers_after_line_comment(fail):
